@@ -1,6 +1,7 @@
 package decoders
 
 import (
+	"bytes"
 	"context"
 	"errors"
 	"fmt"
@@ -25,6 +26,26 @@ var (
 	ErrAmmoLimit = fmt.Errorf("ammo limit faced")
 	ErrPassLimit = fmt.Errorf("passes limit faced")
 )
+
+// maxBodyPrealloc bounds the memory reserved up front for an ammo body: the size comes from the
+// ammo file, the buffer grows further only with the data actually read.
+const maxBodyPrealloc = 1 << 20
+
+// readBody reads exactly size bytes of an ammo body. A negative size is rejected; when the
+// source is shorter than size the bytes read so far are returned with io.EOF (nothing read)
+// or io.ErrUnexpectedEOF, as io.ReadFull does.
+func readBody(r io.Reader, size int) ([]byte, error) {
+	if size < 0 {
+		return nil, fmt.Errorf("negative ammo size %d", size)
+	}
+	var buf bytes.Buffer
+	buf.Grow(min(size, maxBodyPrealloc))
+	n, err := io.CopyN(&buf, r, int64(size))
+	if err == io.EOF && n > 0 {
+		err = io.ErrUnexpectedEOF
+	}
+	return buf.Bytes(), err
+}
 
 type Decoder interface {
 	Scan(context.Context) (DecodedAmmo, error)
